@@ -78,6 +78,9 @@ func init() {
 	for _, id := range []string{"C01", "C02", "C03", "C04", "C05", "C06", "C07", "C08", "C09", "C10", "C11", "C14", "C16", "C17", "C20"} {
 		pc := simProp("Test"+id, q, t)
 		pc.ExtraRun = "^TestReplay_" + id + "_" // scripted regressions (DESIGN Appendix B)
+		if id == "C05" {
+			pc.Level = "fault_enumeration" // random crash search + complete single-crash sweep per base schedule
+		}
 		props[id] = pc
 	}
 	c15 := simProp("TestC15", tierCfg{Shards: 16, Checks: 1000}, tierCfg{Shards: 16, Checks: 25000})
